@@ -258,6 +258,7 @@ func (s *SpecValidator) validateDuplicatePropertyNames() *Result {
 			for _, v := range dups {
 				pns = append(pns, v.Definition+"."+v.Name)
 			}
+			sort.Strings(pns) // the duplicates are found ranging over property maps: the message must not depend on that order
 			res.AddErrors(duplicatePropertiesMsg(k, pns))
 		}
 
